@@ -360,6 +360,52 @@ class Ctx:
             out[k] = model_value(model, v)
         return out
 
+    def diverse_instance(self):
+        """A concrete member of this path whose numeric inputs are as 'generic' as the path condition allows: real
+        inputs pairwise different with a fractional part, integer inputs pairwise different and non-zero where
+        possible (an all-zero model hides value-dependent defects).  Used by the concrete fall-back only."""
+        leaves = []
+
+        def walk(v):
+            if isinstance(v, (SInt, SBool, SReal)):
+                v = v.e
+            if z3.is_expr(v):
+                if z3.is_const(v) and v.decl().kind() == z3.Z3_OP_UNINTERPRETED and not z3.is_bool(v):
+                    leaves.append(v)
+            elif isinstance(v, dict):
+                for x in v.values():
+                    walk(x)
+            elif isinstance(v, (list, tuple)):
+                for x in v:
+                    walk(x)
+
+        walk(list(self.inputs.values()))
+        seen, uniq = set(), []
+        for v in leaves:
+            if v.get_id() not in seen:
+                seen.add(v.get_id())
+                uniq.append(v)
+        reals = [v for v in uniq if z3.is_real(v)]
+        ints = [v for v in uniq if z3.is_int(v)]
+        tiers = []
+        frac = [z3.Not(z3.IsInt(v)) for v in reals] + [z3.IsInt(4 * v) for v in reals] + [v > 1 for v in reals]  # (dyadic: exact as floats and as text)
+        if len(reals) > 1:
+            frac.append(z3.Distinct(reals))
+        if frac:
+            tiers.append(frac + ([z3.Distinct(ints)] if len(ints) > 1 else []) + [v != 0 for v in ints])
+            tiers.append(frac)
+        elif ints:
+            tiers.append(([z3.Distinct(ints)] if len(ints) > 1 else []) + [v != 0 for v in ints])
+        for extra in tiers:
+            try:
+                if self._check(*extra):
+                    return self._model_inputs(self.last.model())
+            except BaseException:  # noqa: BLE001
+                break
+        if self.feasible():
+            return self._model_inputs(self.model)
+        return None
+
     def oblige(self, name, claim, prop=None, harness=None):
         """Record a proof obligation `pc => claim` and discharge it now."""
         claim = unwrap(claim)
